@@ -782,8 +782,27 @@ func (e *Enc) applyAtsIn(in ssa.Instruction, kind, name string, pos token.Pos, a
 	}
 	anchor2 := strings.TrimSpace(fmt.Sprintf("%s %s", kind, name)) // every occurrence
 	anchor1 := fmt.Sprintf("%s#%d", anchor2, ord)
+	// package-qualified form: "call hmac.New#0"
+	anchor3, anchor4 := "", ""
+	if base == "call" && in != nil {
+		var c *ssa.CallCommon
+		switch ci := in.(type) {
+		case *ssa.Call:
+			c = ci.Common()
+		case *ssa.Defer:
+			c = ci.Common()
+		}
+		if c != nil && !c.IsInvoke() {
+			if f := c.StaticCallee(); f != nil && f.Pkg != nil && f.Signature.Recv() == nil {
+				anchor4 = fmt.Sprintf("%s %s.%s", kind, f.Pkg.Pkg.Name(), f.Name())
+				if q, ok := e.siteOrdQ[in]; ok {
+					anchor3 = fmt.Sprintf("%s#%d", anchor4, q)
+				}
+			}
+		}
+	}
 	for ai, at := range e.fc.Ats {
-		if at.Anchor != anchor1 && at.Anchor != anchor2 {
+		if at.Anchor != anchor1 && at.Anchor != anchor2 && (anchor3 == "" || at.Anchor != anchor3) && (anchor4 == "" || at.Anchor != anchor4) {
 			continue
 		}
 		e.atHit[ai] = true
@@ -838,6 +857,13 @@ func (e *Enc) ghostAssign(env *specEnv, target SExpr, v SV) {
 		env.fail("ghost assignment target must be a single location")
 	}
 	it := items[0]
+	if v.Nil {
+		srt := it.HeapSort
+		if it.Key != "" {
+			_, srt = splitArraySort(it.HeapSort)
+		}
+		v = env.nilOf(SV{Sort: srt})
+	}
 	if !strings.HasPrefix(it.Heap, "$g") && !strings.HasPrefix(it.Heap, "GF$") && !strings.HasPrefix(it.Heap, "GI$") {
 		env.fail("ghost assignment to non-ghost state %s", it.Heap)
 	}
